@@ -14,7 +14,7 @@ func SSpecial(t *rapid.T, label string) *big.Int {
 	n := ref.N
 	sp := []*big.Int{bi(1), bi(2), ref.HalfN, new(big.Int).Add(ref.HalfN, one), new(big.Int).Sub(ref.HalfN, one),
 		new(big.Int).Sub(n, one), new(big.Int).Sub(n, bi(2))}
-	i := rapid.IntRange(0, len(sp)+2).Draw(t, label+"_sel")
+	i := rapid.IntRange(0, len(sp)+7).Draw(t, label+"_sel")
 	if i < len(sp) {
 		return new(big.Int).Set(sp[i])
 	}
